@@ -89,7 +89,12 @@ theorem usub_le (E : Env) (x y : Nat) (h : y ≤ x) : usub E x y = pure (x - y) 
 
 section
 variable {T Reg : Type} {E : Env} {R : SimdRegister T Reg} {L : Nat} {lanes : Reg → Nat → T}
-variable {f : T → T → T} {ok : T → Prop}
+variable {f ft : T → T → T} {ok : T → Prop}
+
+/-- the content a vector×vector kernel writes when its registers compute `f` and its scalar tail `ft`:
+elements below `cut` (the part covered by whole registers) are `f a[j] b[j]`, the rest `ft a[j] b[j]` -/
+def mixG (cut : Nat) (f ft : T → T → T) (a b : Slice T) : Nat → T :=
+  fun j => if j < cut then f (a.get j) (b.get j) else ft (a.get j) (b.get j)
 variable {opDense : DenseLane Reg → DenseLane Reg → Exec (DenseLane Reg)} {opReg : Reg → Reg → Exec Reg}
 variable {opTail : T → T → Exec T}
 
@@ -97,13 +102,13 @@ variable {opTail : T → T → Exec T}
 theorem map2_dense_step (MF : MemFaithful R L lanes) (LW : Lanewise2 L lanes f ok opReg opDense)
     (dims : Nat) (a b orig : Slice T) (ha : a.size = dims) (hb : b.size = dims)
     (hok : ∀ j, j < dims → ok (b.get j)) (i : Nat) (res : Slice T)
-    (hf : Filled dims (fun j => f (a.get j) (b.get j)) orig i res) (hi : i + L * 8 ≤ dims) :
+    (cut : Nat) (hf : Filled dims (mixG cut f ft a b) orig i res) (hi : i + L * 8 ≤ dims) (hc : i + L * 8 ≤ cut) :
     ∃ res', (do
         let l1 ← R.load_dense a i
         let l2 ← R.load_dense b i
         let r ← opDense l1 l2
         R.write_dense res i r) = pure res'
-      ∧ Filled dims (fun j => f (a.get j) (b.get j)) orig (i + L * 8) res' := by
+      ∧ Filled dims (mixG cut f ft a b) orig (i + L * 8) res' := by
   obtain ⟨d1, e1, h1⟩ := MF.load_dense_ok a i (by omega)
   obtain ⟨d2, e2, h2⟩ := MF.load_dense_ok b i (by omega)
   obtain ⟨d3, e3, h3⟩ := LW.dense d1 d2 (by
@@ -119,18 +124,21 @@ theorem map2_dense_step (MF : MemFaithful R L lanes) (LW : Lanewise2 L lanes f o
   apply Slice.setRange_congr
   intro k hk
   rw [h3 k hk, h1 k hk, h2 k hk]
+  show _ = mixG cut f ft a b (i + k)
+  unfold mixG
+  rw [if_pos (by omega)]
 
 /-- one register step fills `L` elements -/
 theorem map2_reg_step (MF : MemFaithful R L lanes) (LW : Lanewise2 L lanes f ok opReg opDense)
     (dims : Nat) (a b orig : Slice T) (ha : a.size = dims) (hb : b.size = dims)
     (hok : ∀ j, j < dims → ok (b.get j)) (i : Nat) (res : Slice T)
-    (hf : Filled dims (fun j => f (a.get j) (b.get j)) orig i res) (hi : i + L ≤ dims) :
+    (cut : Nat) (hf : Filled dims (mixG cut f ft a b) orig i res) (hi : i + L ≤ dims) (hc : i + L ≤ cut) :
     ∃ res', (do
         let l1 ← R.load a i
         let l2 ← R.load b i
         let r ← opReg l1 l2
         R.write res i r) = pure res'
-      ∧ Filled dims (fun j => f (a.get j) (b.get j)) orig (i + L) res' := by
+      ∧ Filled dims (mixG cut f ft a b) orig (i + L) res' := by
   obtain ⟨d1, e1, h1⟩ := MF.load_ok a i (by omega)
   obtain ⟨d2, e2, h2⟩ := MF.load_ok b i (by omega)
   obtain ⟨d3, e3, h3⟩ := LW.single d1 d2 (by
@@ -146,40 +154,44 @@ theorem map2_reg_step (MF : MemFaithful R L lanes) (LW : Lanewise2 L lanes f ok 
   apply Slice.setRange_congr
   intro k hk
   rw [h3 k hk, h1 k hk, h2 k hk]
+  show _ = mixG cut f ft a b (i + k)
+  unfold mixG
+  rw [if_pos (by omega)]
 
 /-- one scalar tail step fills one element -/
-theorem map2_tail_step (SC : Scalar2 f ok opTail)
+theorem map2_tail_step (SC : Scalar2 ft ok opTail)
     (dims : Nat) (a b orig : Slice T) (ha : a.size = dims) (hb : b.size = dims)
     (hok : ∀ j, j < dims → ok (b.get j)) (i : Nat) (res : Slice T)
-    (hf : Filled dims (fun j => f (a.get j) (b.get j)) orig i res) (hi : i + 1 ≤ dims) :
+    (cut : Nat) (hf : Filled dims (mixG cut f ft a b) orig i res) (hi : i + 1 ≤ dims) (hc : cut ≤ i) :
     ∃ res', (do
         let x ← Slice.read a i
         let y ← Slice.read b i
         let t ← opTail x y
         Slice.write res i t) = pure res'
-      ∧ Filled dims (fun j => f (a.get j) (b.get j)) orig (i + 1) res' := by
+      ∧ Filled dims (mixG cut f ft a b) orig (i + 1) res' := by
   refine ⟨_, ?_, hf.set⟩
   have h1 : i < a.size := by omega
   have h2 : i < b.size := by omega
   have h3 : i < res.size := by rw [hf.1]; omega
   simp only [Slice.read, Slice.write, h1, h2, h3, if_true, pure_bind]
   rw [SC _ _ (hok i (by omega))]
-  simp
+  simp [mixG, show ¬ i < cut by omega]
 
 /-- **map2 template theorem.** With a lane-wise faithful backend of any lane count `L ≥ 1`, slices of
 exactly `dims` elements, enough fuel, and every element of `b` acceptable to the operation (always true
 for total operations), the kernel terminates without any fault, the result has `dims` elements, element
-`j` of it is `f a[j] b[j]` for every `j < dims`, and nothing else of the result slice is changed. -/
-theorem map2T_spec (MF : MemFaithful R L lanes) (LW : Lanewise2 L lanes f ok opReg opDense)
-    (SC : Scalar2 f ok opTail) (checkResult : Bool)
+`j` of it is `f a[j] b[j]` for every `j` covered by a whole register (`j < dims − dims % L`) and `ft a[j] b[j]` for the
+scalar tail, and nothing else of the result slice is changed. (`f` and `ft` differ for the x86 float `max`/`min`
+kernels: `maxps` in the registers, Rust's `max` in the tail.) -/
+theorem map2T_spec2 (MF : MemFaithful R L lanes) (LW : Lanewise2 L lanes f ok opReg opDense)
+    (SC : Scalar2 ft ok opTail) (checkResult : Bool)
     (dims : Nat) (a b result : Slice T) (ha : a.size = dims) (hb : b.size = dims) (hr : result.size = dims)
     (hok : ∀ j, j < dims → ok (b.get j)) (hfuel : dims < E.fuel) :
     ∃ res', map2T E R checkResult opDense opReg opTail dims a b result = pure res'
-      ∧ res'.size = dims ∧ (∀ j, j < dims → res'.get j = f (a.get j) (b.get j))
+      ∧ res'.size = dims ∧ (∀ j, j < dims → res'.get j = mixG (dims - dims % L) f ft a b j)
       ∧ (∀ j, dims ≤ j → res'.get j = result.get j) := by
   have hL := MF.L_pos
   have hK : 0 < L * 8 := by omega
-  let g : Nat → T := fun j => f (a.get j) (b.get j)
   -- iteration counts
   let q := dims / (L * 8)
   let r := dims % (L * 8)
@@ -193,34 +205,42 @@ theorem map2T_spec (MF : MemFaithful R L lanes) (LW : Lanewise2 L lanes f ok opR
     have := Nat.div_add_mod r L
     simp only [n2, r2]; rw [Nat.mul_comm]; omega
   have hr2_lt : r2 < L := Nat.mod_lt _ hL
+  let cut := q * (L * 8) + n2 * L
+  have hcut : dims - dims % L = cut := by
+    have h8 : dims % L = r2 := by
+      show dims % L = dims % (L * 8) % L
+      rw [Nat.mod_mul_right_mod]
+    rw [h8]; omega
+  rw [hcut]
+  let g : Nat → T := mixG cut f ft a b
   have hF0 : Filled dims g result 0 result := ⟨hr, by intro j; simp⟩
   -- phase 1
-  obtain ⟨res1, e1, hF1⟩ := iter_fill dims (L * 8) g result
+  obtain ⟨res1, e1, hF1⟩ := iter_fill_range dims (L * 8) 0 (q * (L * 8)) g result
     (fun i res => do
       let l1 ← R.load_dense a i
       let l2 ← R.load_dense b i
       let r ← opDense l1 l2
       R.write_dense res i r)
-    (fun i res hf hi => map2_dense_step MF LW dims a b result ha hb hok i res hf hi)
-    q 0 result hF0 (by omega)
+    (fun i res hf _ hi => map2_dense_step MF LW dims a b result ha hb hok i res cut hf (by omega) (by omega))
+    q 0 result hF0 (by omega) (by omega)
   -- phase 2
-  obtain ⟨res2, e2, hF2⟩ := iter_fill dims L g result
+  obtain ⟨res2, e2, hF2⟩ := iter_fill_range dims L 0 cut g result
     (fun i res => do
       let l1 ← R.load a i
       let l2 ← R.load b i
       let r ← opReg l1 l2
       R.write res i r)
-    (fun i res hf hi => map2_reg_step MF LW dims a b result ha hb hok i res hf hi)
-    n2 (0 + q * (L * 8)) res1 hF1 (by omega)
+    (fun i res hf _ hi => map2_reg_step MF LW dims a b result ha hb hok i res cut hf (by omega) hi)
+    n2 (0 + q * (L * 8)) res1 hF1 (by omega) (by omega)
   -- phase 3
-  obtain ⟨res3, e3, hF3⟩ := iter_fill dims 1 g result
+  obtain ⟨res3, e3, hF3⟩ := iter_fill_range dims 1 cut dims g result
     (fun i res => do
       let x ← Slice.read a i
       let y ← Slice.read b i
       let t ← opTail x y
       Slice.write res i t)
-    (fun i res hf hi => map2_tail_step SC dims a b result ha hb hok i res hf hi)
-    r2 (0 + q * (L * 8) + n2 * L) res2 hF2 (by omega)
+    (fun i res hf hlo hi => map2_tail_step SC dims a b result ha hb hok i res cut hf hi hlo)
+    r2 (0 + q * (L * 8) + n2 * L) res2 hF2 (by omega) (by omega)
   have hend : 0 + q * (L * 8) + n2 * L + r2 * 1 = dims := by omega
   rw [hend] at hF3
   refine ⟨res3, ?_, hF3.1, ?_, ?_⟩
@@ -284,6 +304,20 @@ theorem map2T_spec (MF : MemFaithful R L lanes) (LW : Lanewise2 L lanes f ok opR
     rw [hF3.2 j]
     have : ¬ (j < dims) := by omega
     simp [this]
+
+/-- the single-function form: registers and tail compute the same `f` -/
+theorem map2T_spec (MF : MemFaithful R L lanes) (LW : Lanewise2 L lanes f ok opReg opDense)
+    (SC : Scalar2 f ok opTail) (checkResult : Bool)
+    (dims : Nat) (a b result : Slice T) (ha : a.size = dims) (hb : b.size = dims) (hr : result.size = dims)
+    (hok : ∀ j, j < dims → ok (b.get j)) (hfuel : dims < E.fuel) :
+    ∃ res', map2T E R checkResult opDense opReg opTail dims a b result = pure res'
+      ∧ res'.size = dims ∧ (∀ j, j < dims → res'.get j = f (a.get j) (b.get j))
+      ∧ (∀ j, dims ≤ j → res'.get j = result.get j) := by
+  obtain ⟨res', e, h1, h2, h3⟩ := map2T_spec2 (ft := f) MF LW SC checkResult dims a b result ha hb hr hok hfuel
+  refine ⟨res', e, h1, ?_, h3⟩
+  intro j hj
+  rw [h2 j hj]
+  simp [mixG]
 
 end
 
